@@ -245,6 +245,12 @@ ADVERSARIAL = [
      [("position startpos", 0, None), ("go depth 2", 0, "bestmove"), ("position startpos moves e2e4", 0, None), ("go depth 2", 0, "bestmove")]),
     ("stop arrives at thread start", {"RUSTYBAIT_VERIF_SEARCH_THREAD_START_MS": 150},
      [("position startpos", 0, None), ("go infinite", 0, None), ("stop", 0, None), ("position startpos", 0, None), ("go depth 1", 0, "bestmove")]),
+    ("search thread starts late, after its timer expired and the next go was accepted", {"RUSTYBAIT_VERIF_SEARCH_THREAD_START_MS": 300},
+     [("position startpos", 0, None), ("go movetime 1", 0, None), ("position startpos", 30, None), ("go depth 1", 0, None),
+      ("isready", 900, None), ("position startpos", 0, None), ("go depth 1", 0, "bestmove")]),
+    ("search thread starts late, next position is invalid", {"RUSTYBAIT_VERIF_SEARCH_THREAD_START_MS": 300},
+     [("position startpos", 0, None), ("go movetime 1", 0, None), ("position fen 8/8/8/8/8/8/8/8 w - -", 30, None),
+      ("isready", 700, None), ("position startpos", 0, None), ("go depth 1", 0, "bestmove")]),
     ("timer wake-up stretched", {"RUSTYBAIT_VERIF_TIMER_WAKEUP_MS": 200},
      [("position startpos", 0, None), ("go movetime 20", 0, "bestmove"), ("position startpos", 0, None), ("go movetime 20", 0, "bestmove")]),
     ("ucinewgame and isready while searching", {},
